@@ -154,11 +154,43 @@ static void st_case(uint64_t i, void *ctx)
     mc_outcome(i);
 }
 
+/* ------------------------------------------------------------------ (1c) a duplicate and its original share the connection, not their fate */
+static void di_desc(uint64_t i, void *ctx, char *b, size_t n) { (void) ctx; snprintf(b, n, "listener / client open / accept / D = dup(client) / %s / send \"hello\" over the other one / recv on the accepted socket", i ? "del(D)" : "del(client)"); }
+static void di_case(uint64_t i, void *ctx)
+{
+    (void) ctx; const char *shape = "duplicate of a connected socket"; mc_set_shape(shape);
+    setpath(); int fd0 = lowest_free_fd(); unlink(g_path);
+    spif_socket_t L = mk_listener(), C = mk_client(), A = NULL, D = NULL; spif_str_t data = spif_str_new_from_ptr((spif_charptr_t) "hello"), got = NULL;
+    if (!L || !C || !spif_socket_open(L)) { FAIL("spif_socket_open", "model:return", shape, "listener could not be opened"); goto out; }
+    spif_socket_set_nbio(L);
+    if (!spif_socket_open(C)) { FAIL("spif_socket_open", "model:return", shape, "client could not connect"); goto out; }
+    A = spif_socket_accept(L);
+    if (!A) { FAIL("spif_socket_accept", "model:return", shape, "accept returned NULL"); goto out; }
+    D = spif_socket_dup(C);
+    if (!D) { FAIL("spif_socket_dup", "model:return", shape, "dup returned NULL"); goto out; }
+    spif_socket_t keep = i ? C : D;
+    if (i) { spif_socket_del(D); D = NULL; } else { spif_socket_del(C); C = NULL; }
+    if (!spif_socket_send(keep, data)) FAIL("spif_socket_send", "model:return", shape, "send over the %s failed after the %s was deleted", i ? "original" : "duplicate", i ? "duplicate" : "original");
+    else { got = spif_socket_recv(A);
+        if (!got || !got->s || strcmp((char *) got->s, "hello")) FAIL("spif_socket_recv", "model:bytes-differ", shape, "the accepted socket received \"%.20s\" instead of \"hello\"", got && got->s ? (char *) got->s : "(nothing)"); }
+out:
+    if (got) spif_str_del(got);
+    if (A) spif_socket_del(A);
+    if (D) spif_socket_del(D);
+    if (C) spif_socket_del(C);
+    if (L) spif_socket_del(L);
+    spif_str_del(data); unlink(g_path);
+    int fd1 = lowest_free_fd();
+    if (fd1 != fd0) FAIL("spif_socket", "fd-leak", shape, "lowest free descriptor moved from %d to %d", fd0, fd1);
+    mc_nontrivial();
+    mc_outcome(i);
+}
+
 /* ------------------------------------------------------------------ (2) lifecycle */
 enum { O_L, O_C, O_A, O_D, NOBJ };
 static const char *ON[NOBJ] = { "listener", "client", "accepted", "duplicate" };
 typedef struct { spif_socket_t o[NOBJ]; int owns[NOBJ]; int opened[NOBJ]; int listening, connected, pending, peer_open; int fd0; int dup_of; int lgen, pending_gen; } st_t;    /* lgen: which listening description the listener object holds; a queued connection stays with the description it reached */
-enum { K_NEW, K_OPEN, K_OPEN_FAIL_SOCKET, K_OPEN_FAIL_BIND, K_OPEN_FAIL_LISTEN, K_OPEN_FAIL_CONNECT, K_ACCEPT, K_ACCEPT_FAIL, K_NBIO, K_SEND, K_RECV, K_CLOSE, K_DUP, K_DEL, K_ACCEPT_NODUP, K_DUP_FAIL };
+enum { K_NEW, K_OPEN, K_OPEN_FAIL_SOCKET, K_OPEN_FAIL_BIND, K_OPEN_FAIL_LISTEN, K_OPEN_FAIL_CONNECT, K_ACCEPT, K_ACCEPT_FAIL, K_NBIO, K_SEND, K_RECV, K_CLOSE, K_DUP, K_DEL, K_ACCEPT_NODUP, K_DUP_FAIL, K_CHECK_IO };
 typedef struct { int k, obj; } op_t;
 static op_t OPS[64]; static int NOPS;
 static void build_ops(void)
@@ -175,11 +207,12 @@ static void build_ops(void)
     for (int o = 0; o < NOBJ; o++) OPS[NOPS++] = (op_t) { K_CLOSE, o };
     for (int o = 0; o < 3; o++) OPS[NOPS++] = (op_t) { K_DUP, o };
     for (int o = 0; o < 3; o++) OPS[NOPS++] = (op_t) { K_DUP_FAIL, o };
+    OPS[NOPS++] = (op_t) { K_CHECK_IO, O_A }; OPS[NOPS++] = (op_t) { K_CHECK_IO, O_C };        /* check_io(): asks select() what the descriptor is ready for; it owns nothing */
     for (int o = 0; o < NOBJ; o++) OPS[NOPS++] = (op_t) { K_DEL, o };
 }
 static void op_name(int i, char *b, size_t n)
 {
-    static const char *kn[] = { "new", "open", "open[socket() fails]", "open[bind() fails]", "open[listen() fails]", "open[connect() fails]", "accept", "accept[accept() fails]", "set_nbio", "send(\"hi\")", "recv", "close", "dup", "del", "accept[no descriptor to spare: dup() fails]", "dup[dup() fails]" };
+    static const char *kn[] = { "new", "open", "open[socket() fails]", "open[bind() fails]", "open[listen() fails]", "open[connect() fails]", "accept", "accept[accept() fails]", "set_nbio", "send(\"hi\")", "recv", "close", "dup", "del", "accept[no descriptor to spare: dup() fails]", "dup[dup() fails]", "check_io" };
     snprintf(b, n, "%s(%s)", kn[OPS[i].k], ON[OPS[i].obj]);
 }
 static void *fresh(void) { setpath(); st_t *s = calloc(1, sizeof *s); s->fd0 = lowest_free_fd(); s->dup_of = -1; unlink(g_path); return s; }
@@ -192,7 +225,7 @@ static int enabled(void *vs, int op)
     case K_OPEN: case K_OPEN_FAIL_BIND: case K_OPEN_FAIL_LISTEN: case K_OPEN_FAIL_CONNECT:
         return x != NULL && !s->opened[o->obj];                                             /* not opened yet, closed again, or left half-open by a failed attempt (a retry) */
     case K_ACCEPT: case K_ACCEPT_FAIL: case K_ACCEPT_NODUP: return x != NULL && s->listening && s->owns[O_L] && s->pending && s->pending_gen == s->lgen && s->o[O_A] == NULL;
-    case K_NBIO: return x != NULL && s->owns[o->obj];
+    case K_NBIO: case K_CHECK_IO: return x != NULL && s->owns[o->obj];
     case K_SEND: return x != NULL && s->owns[o->obj] && (o->obj == O_C ? 1 : 1);
     case K_RECV: return x != NULL && s->owns[o->obj] && (o->obj == O_A || s->dup_of == O_A);   /* only non-blocking descriptors are read */
     case K_CLOSE: return x != NULL && s->owns[o->obj];
@@ -248,6 +281,7 @@ static void apply(void *vs, int op)
         else { s->o[O_A] = a; s->owns[O_A] = 1; s->opened[O_A] = 1; s->pending = 0; }
         break; }
     case K_NBIO: if (!spif_socket_set_nbio(x)) FAIL(site, "model:return", shape, "set_nbio failed on an open descriptor"); break;
+    case K_CHECK_IO: (void) spif_socket_check_io(x); break;              /* whatever it reports, the object still owns its descriptor (checked below) */
     case K_SEND: { spif_str_t d = spif_str_new_from_ptr((spif_charptr_t) "hi");
         spif_bool_t r = spif_socket_send(x, d); spif_str_del(d);
         /* a failed send may close the descriptor; it must then also forget it (checked below through fd_open) */
@@ -305,6 +339,7 @@ int main(int argc, char **argv)
         /* E2 workers are forked inside mc_e2_level; make the path unique per case instead of per process */
         mc_e2_level("transfer", g_k * 10 + g_dev, (uint64_t) NLENS * 2, tr_case, tr_desc, NULL);
         { int k = g_k, d = g_dev; mc_e2_level("storm", 300, 8, st_case, st_desc, NULL); g_k = k; g_dev = d; }
+        mc_e2_level("dup_independence", 1, 2, di_case, di_desc, NULL);
     }
     if (!mc_arg("only", NULL) || !strcmp(mc_arg("only", ""), "lifecycle")) {
         mc_sys sys = { "lifecycle", NOPS, op_name, fresh, enabled, apply, NULL, canon, teardown, (int) mc_arg_int("lookahead", 1) };
